@@ -27,6 +27,7 @@ Clauses(want, raw, o) ==
      << o.cc = want.cc,                                     "one_cell_corner_per_cell_vertex_with_owner" >>,
      << o.cf = want.cf,                                     "one_cell_face_per_incidence_with_owner" >>,
      << SeqToSet(o.hard) = want.hard,                       "only_declared_edges_flagged_hard" >>,
+     << SeqToSet(o.hard_entries) = want.hard,               "only_declared_edges_carry_a_hard_flag_entry" >>,       \* what feature detection and the writers iterate over
      << { <<p[1], p[2]>> : p \in SeqToSet(o.att) } = want.att, "surviving_edges_keep_their_attribute_values" >> >>
 
 Cls(s) == s.cont \o "/" \o s.want.cls \o (IF s.raw.completeE THEN "" ELSE "/noCompleteE") \o (IF s.raw.completeF THEN "" ELSE "/noCompleteF")
